@@ -5,7 +5,7 @@ from __future__ import annotations
 import ast
 
 from .. import AnalysisError
-from ..astutil import bind_call, deref, names_in, walk_stmts
+from ..astutil import unpacked_pair, bind_call, deref, names_in, walk_stmts
 from ..consteval import ConstEval
 from ..layout import grouping_specs
 from ..model import src_of
@@ -98,11 +98,11 @@ def run(ctx):
             else:
                 ctx.violate("R2", f"{short} writer: the target conventions `{src_of(tbl) if tbl is not None else None}` do not resolve to a module-level table", f, cs.node)
             basis_arg = b.get(cc.posparams[0])
-            par = pmf.get(id(cs.node))
-            if not (isinstance(par, ast.Assign) and isinstance(par.targets[0], ast.Tuple) and len(par.targets[0].elts) == 2 and all(isinstance(x, ast.Name) for x in par.targets[0].elts)):
+            pair = unpacked_pair(f, cs.node, pmf)
+            if pair is None:
                 ctx.violate("R1", f"{short} writer does not unpack convert_conventions into (permutation, signs)", f, cs.node)
                 continue
-            pn, sn = (x.id for x in par.targets[0].elts)
+            pn, sn = pair
             # ------------------------------------------------------ R1: every coefficient use
             for n in f.own_nodes():
                 if isinstance(n, ast.Attribute) and n.attr in COEFF_ATTRS and isinstance(n.value, ast.Attribute) and n.value.attr == "mo" and isinstance(n.ctx, ast.Load):
